@@ -508,6 +508,8 @@ class Fn:
                 s = lit_val(b)
                 if op == "<<":
                     raw = "%s * %d" % (self.atom(a), 1 << s)
+                    if signed and is_lit(a) and 0 <= lit_val(a) and (lit_val(a) << s) <= hi:
+                        return k(lit(lit_val(a) << s), env)
                     if signed:
                         v = self.fresh("v", "shl")
                         return "CSem.ckShlS %d %s %d %s >>= fun %s =>\n%s" % (bits, self.atom(a), s, self.site_name("signed <<"), v, k(v, env))
@@ -737,7 +739,15 @@ class Fn:
             return self.loop_cnt(env)
         if kind in ("WhileStmt", "ForStmt"):
             return self.loop(s, env, nxt)
-        if kind in ("DoStmt", "GotoStmt", "LabelStmt"):
+        if kind == "DoStmt":
+            # the macro idiom `do { ... } while (0)`: the body, once (no break / continue inside)
+            parts = s.get("inner", [])
+            cnd = self.strip(parts[1]) if len(parts) == 2 else None
+            if cnd is not None and cnd.get("kind") == "IntegerLiteral" and int(cnd.get("value", "1")) == 0 \
+                    and not self.has_jump(parts[0]):
+                return self.stmts([parts[0]] + rest, env, k, brk)
+            raise Untranslatable("do-loop other than the do { } while (0) idiom")
+        if kind in ("GotoStmt", "LabelStmt"):
             raise Untranslatable("statement kind %s (do-loops and jumps are outside the translated subset)" % kind)
         # expression statement
         return self.ex(s, env, lambda _, e: nxt(e))
@@ -791,6 +801,13 @@ class Fn:
         if init is not None:
             return self.stmts([init], env, core, None)
         return core(env)
+
+    def has_jump(self, n):
+        if isinstance(n, dict):
+            if n.get("kind") in ("BreakStmt", "ContinueStmt"):
+                return True
+            return any(self.has_jump(c) for c in n.get("inner", []))
+        return False
 
     def assigned_everywhere(self, v, th, el):
         return el is not None and self.assigns(th, v) and self.assigns(el, v)
